@@ -128,17 +128,53 @@ def slot_agreement(ctx, rule, pack, curve, post, DP):
 def bound_sources(ctx, rule="R10.2"):
     prog = ctx.prog
     pack = prog.func(FIT, "_init_curve_fit_para")
-    lows = [ast.unparse(n.args[0]) for n in ast.walk(pack) if isinstance(n, ast.Call) and ast.unparse(n.func) == "low_bounds.append"]
-    tops = [(ast.unparse(n.args[0]), _guards(pack, n)) for n in ast.walk(pack) if isinstance(n, ast.Call) and ast.unparse(n.func) == "top_bounds.append"]
-    ctx.check(sorted(lows) == sorted(["model.arg_bounds[par][0]", "model.arg_bounds[opt][0]", "model.anis_bounds[0]"]), rule, FIT + "::_init_curve_fit_para", "lower bounds come from element [0] of the parameter's bounds: %s" % lows, "low")
-    top_txt = sorted(t for t, g in tops)
+    from ..small import resolved_values
+
+    def res(e):
+        return [ast.unparse(v) for v in resolved_values(pack, e)]
+
+    def guards_of_value(call, vtxt):
+        """guards under which `call` appends the value vtxt: guards of the call plus, when the value comes through a local, those of its assignment"""
+        g = list(_guards(pack, call))
+        a0 = call.args[0]
+        if isinstance(a0, ast.Name):
+            for n in ast.walk(pack):
+                if isinstance(n, ast.Assign) and len(n.targets) == 1 and isinstance(n.targets[0], ast.Name) and vtxt in [ast.unparse(v) for v in resolved_values(pack, n.value)] and ast.unparse(n.value) == vtxt:
+                    g += list(_guards(pack, n))
+        return g
+
+    low_calls = [n for n in ast.walk(pack) if isinstance(n, ast.Call) and ast.unparse(n.func) == "low_bounds.append"]
+    top_calls = [n for n in ast.walk(pack) if isinstance(n, ast.Call) and ast.unparse(n.func) == "top_bounds.append"]
+    lows = sorted({t for n in low_calls for t in res(n.args[0])})
+    tops = [(t, guards_of_value(n, t)) for n in top_calls for t in sorted(set(res(n.args[0])))]
+    ctx.check(sorted(set(lows)) == sorted(["model.arg_bounds[par][0]", "model.arg_bounds[opt][0]", "model.anis_bounds[0]"]), rule, FIT + "::_init_curve_fit_para", "lower bounds come from element [0] of the parameter's bounds: %s" % lows, "low")
+    top_txt = sorted({t for t, g in tops})
     ctx.check(top_txt == sorted(["sill", "model.arg_bounds[par][1]", "model.arg_bounds[opt][1]", "model.anis_bounds[1]"]), rule, FIT + "::_init_curve_fit_para", "upper bounds come from element [1] (or the sill for the variance under a constrained sill): %s" % top_txt, "top")
     sg = [g for t, g in tops if t == "sill"]
-    ok = len(sg) == 1 and any("par == 'var' and constrain_sill" in x for x in sg[0])
+    ok = len(sg) >= 1 and all(any("par == 'var' and constrain_sill" in x for x in g) for g in sg)
     ctx.check(ok, rule, FIT + "::_init_curve_fit_para", "the sill caps the variance only when the sill is constrained", "sill-cap")
     igs = [n for n in ast.walk(pack) if isinstance(n, ast.Call) and getattr(n.func, "id", "") == "_init_guess"]
-    ok = len(igs) == 3 and all({k.arg: ast.unparse(k.value) for k in c.keywords}.get("bounds") == "[low_bounds[-1], top_bounds[-1]]" for c in igs)
-    dflt = sorted({k.arg: ast.unparse(k.value) for k in c.keywords}.get("default") for c in igs)
+    def own_slot(c):
+        """bounds=[lo, hi] of this start value are the bounds just appended for the same slot"""
+        b = {k.arg: k.value for k in c.keywords}.get("bounds")
+        if b is None or not isinstance(b, ast.List) or len(b.elts) != 2:
+            return False
+        if ast.unparse(b) == "[low_bounds[-1], top_bounds[-1]]":
+            return True
+        # spelled through locals: the same names must be what the two appends of this block received
+        blk = None
+        for n in ast.walk(pack):
+            for f_ in ("body", "orelse"):
+                bb = getattr(n, f_, None)
+                if isinstance(bb, list) and any(any(x is c for x in ast.walk(s_)) for s_ in bb):
+                    blk = bb
+        if blk is None:
+            return False
+        app = {ast.unparse(x.func): ast.unparse(x.args[0]) for s_ in blk for x in ast.walk(s_) if isinstance(x, ast.Call) and ast.unparse(x.func) in ("low_bounds.append", "top_bounds.append") and x.args}
+        return app.get("low_bounds.append") == ast.unparse(b.elts[0]) and app.get("top_bounds.append") == ast.unparse(b.elts[1])
+
+    ok = len(igs) >= 1 and all(own_slot(c) for c in igs)
+    dflt = sorted({t for c in igs for t in res({k.arg: k.value for k in c.keywords}.get("default"))})
     ctx.check(ok and dflt == sorted(["init_guess[par]", "init_guess[opt]", "init_guess['anis'][i]"]), rule, FIT + "::_init_curve_fit_para", "every start value is checked against the bounds of its own slot", "guess-bounds")
     ig = prog.func(FIT, "_init_guess")
     ifs = [s for s in ig.body if isinstance(s, ast.If)]
